@@ -497,6 +497,11 @@ fn harnesses(tier: Tier) -> Vec<Harness> {
     v.push(hi("premarked-ends-slice-mark-vs-mark", vec![62, 65], vec![vec![SliceMark(60, 2, 4)], vec![SetBit(63)]], None));
     v.push(h("end-markers-vs-range-mark", vec![vec![SetBit(62)], vec![SetBit(66)], vec![SetRange(62, 5)]], None));
     v.push(h("range-reset-middle-range-again", vec![vec![SetRange(62, 5), ResetRange(63, 3), SetRange(62, 5)], vec![SetBit(0)]], None));
+    // resets of 64 pages and more, not aligned to a bitmap word: pages outside the range keep
+    // their marks, whether they were made before or are being made by another thread
+    v.push(hi("long-unaligned-reset-vs-mark-below", vec![3], vec![vec![ResetRange(10, 71)], vec![SetBit(5)]], None));
+    v.push(hi("long-unaligned-reset-vs-mark-above", vec![100], vec![vec![ResetRange(1, 64)], vec![SetBit(70)]], None));
+    v.push(hi("long-reset-vs-mark-range", vec![2, 127], vec![vec![ResetRange(40, 80)], vec![SetRange(20, 2)]], None));
     // the same page marked again after a fetch-and-clear (histories on one page)
     v.push(h("remark-vs-harvest", vec![vec![SetRange(70, 1), SetRange(70, 1)], vec![Harvest]], None));
     v.push(h("remark-set-bit-vs-harvest", vec![vec![SetBit(70), SetBit(70)], vec![Harvest]], None));
